@@ -357,16 +357,20 @@ class Evaluator(object):
             return ("undef", fid, l)
         return t
 
-    def place(self, fid, body, env, p, want_cell=False):
+    def place(self, fid, body, env, p, want_cell=False, for_store=False):
         t = self._local(fid, body, env, p["l"])
         cell = None
         upv = self.frames[fid][1]
-        for e in p["p"]:
+        mem = env.get("mem")
+        np = len(p["p"])
+        for pi, e in enumerate(p["p"]):
             k = e["k"]
             if k == "deref":
                 if t[0] == "cellref":
                     cell = t[1]
                     t = env.get(cell, ("undef",) + cell)
+                elif mem and t in mem and not (for_store and pi == np - 1):
+                    t = mem[t]   # what was last stored through this reference on this path
                 continue
             cell = None
             if k == "field":
@@ -393,6 +397,8 @@ class Evaluator(object):
                     t = ("variant", t, e.get("variant"))
             else:
                 t = ("proj", t, k)
+            if mem and k != "deref" and t in mem and not (for_store and pi == np - 1):
+                t = mem[t]
         if want_cell:
             return t, cell
         return t
@@ -467,11 +473,11 @@ class Evaluator(object):
                             env[key] = self._local(fid, body, env, pl["l"])
                         return ("cellref", key)
                     return self.place(fid, body, env, pl)
-                t, cell = self.place(fid, body, env, pl, want_cell=True)
+                t, cell = self.place(fid, body, env, pl, want_cell=True, for_store=True)
                 if cell is not None:
                     return ("cellref", cell)  # reborrow
                 return t
-            return self.place(fid, body, env, pl)
+            return self.place(fid, body, env, pl, for_store=(k != "copy_for_deref"))
         if k == "cast":
             return ("cast", rv["kind"].split("(")[0], self.operand(fid, body, env, rv["op"]))
         if k == "binop":
@@ -542,12 +548,13 @@ class Evaluator(object):
                     if not p["p"]:
                         env[(fid, p["l"])] = v
                     else:
-                        pt, cell = self.place(fid, body, env, p, want_cell=True)
+                        pt, cell = self.place(fid, body, env, p, want_cell=True, for_store=True)
                         if cell is not None:
                             env[cell] = v
                             path.events.append(("store", (fid, bb), ("cell", cell), v))
                         else:
                             path.events.append(("store", (fid, bb), pt, v))
+                            self._remember(env, pt, v)
                 t = blk["term"]
                 k = t["k"]
                 if k == "goto" or k in ("drop", "assert"):
@@ -717,6 +724,26 @@ class Evaluator(object):
                 self._count()
         return out
 
+    def _remember(self, env, place, value):
+        """Store forwarding: a later read of exactly this place on this path sees the value (until the place, or what
+        it is part of, is handed to code that is not looked into)."""
+        mem = dict(env.get("mem") or {})
+        for k in list(mem):
+            if _is_part(k, place) or _is_part(place, k):
+                del mem[k]
+        mem[place] = value
+        env["mem"] = mem
+
+    def _forget(self, env, args):
+        mem = env.get("mem")
+        if not mem:
+            return
+        keep = {}
+        for k, v in mem.items():
+            if not any(_shares_root(k, a) for a in args):
+                keep[k] = v
+        env["mem"] = keep
+
     def opaque(self, site, c, args, env, path):
         if c.name in PURE_OBSERVERS and not getattr(c, "local", False) and args and all(self._immutable_input(a) for a in args):
             # asking the same question about something nobody can change gives the same answer: one atom, not one per site
@@ -735,6 +762,8 @@ class Evaluator(object):
         for a in args:
             for k in _cellrefs(a):
                 env[k] = ("havoc", site, k)
+        if site[0] != "pure" and c.name not in PURE_OBSERVERS:
+            self._forget(env, args)
         return [("val", env, path, v)]
 
     def _immutable_input(self, t):
@@ -764,6 +793,9 @@ class Evaluator(object):
             if adt is None or str(adt.get("kind", "")).lower() != "enum":
                 return False
         if len(fid) >= self.policy.max_depth:
+            return False
+        root = self.frames.get(())
+        if root is not None and root[0].key == tb.key:
             return False
         return all(k != tb.key for (_, k) in fid)
 
@@ -817,6 +849,10 @@ class Evaluator(object):
             key = f[1]
             upv = {}
         elif f[0] == "fnref":
+            # tuple-variant constructors used as functions (`.map(Some)`)
+            for nm, adt in (("Some", OPTION), ("Ok", RESULT), ("Err", RESULT)):
+                if f[2] == nm and "{constructor" in str(f[1]) and adt.rsplit("::", 1)[1] + "::" + nm in str(f[1]) and len(argv) == 1:
+                    return [("val", env, path, mk_variant(adt, nm, argv))]
             cb = self.facts.bodies.get(f[1])
             if cb is not None and self._may_inline(fid, cb):
                 return self.inline(fid, bbtag, cb, tuple(argv), env, path)
@@ -1004,6 +1040,37 @@ class Cx(object):
     def fop(self, i):
         o = self.ops[i] if self.ops is not None and i < len(self.ops) else None
         return o if (o is not None and o.get("k") == "const" and "fn" in o) else None
+
+
+def _place_root(t):
+    while isinstance(t, tuple) and t and t[0] in ("field", "index", "variant", "proj", "cast"):
+        t = t[2] if t[0] == "cast" else t[1]
+    return t
+
+
+def _is_part(a, b):
+    """place term `a` is `b` or lies inside it"""
+    while True:
+        if a == b:
+            return True
+        if isinstance(a, tuple) and a and a[0] in ("field", "index", "variant", "proj"):
+            a = a[1]
+        else:
+            return False
+
+
+def _shares_root(place, arg):
+    r = _place_root(place)
+    x = arg
+    # look through the transparent part of the argument
+    for _ in range(12):
+        if _place_root(x) == r:
+            return True
+        if isinstance(x, tuple) and x and x[0] == "call" and x[2]:
+            x = x[2][0]
+        else:
+            return False
+    return False
 
 
 def _subst_ty(s, m):
